@@ -106,9 +106,9 @@ func genDocs(r *Rng, maxNodes int) []DocSpec {
 	var ds []DocSpec
 	for i := 0; i < n; i++ {
 		switch {
-		case r.Chance(1, 24):
+		case r.Chance(1, 14):
 			ds = append(ds, GenWideDoc(r)) // size stratum: one very wide level
-		case r.Chance(1, 24):
+		case r.Chance(1, 14):
 			ds = append(ds, GenDeepDoc(r)) // size stratum: a deep chain
 		default:
 			ds = append(ds, GenDoc(r, maxNodes))
@@ -120,7 +120,7 @@ func genDocs(r *Rng, maxNodes int) []DocSpec {
 func baseCfg(r *Rng) Config {
 	c := Config{CacheCap: -1, PoolMode: r.Intn(2), Faults: !r.Chance(1, 4), NS: r.Chance(1, 5), NSSwap: r.Chance(1, 2), Pristine: r.Chance(1, 100), Must: r.Chance(1, 8)}
 	if r.Chance(1, 3) {
-		c.CacheCap = []int{0, 1, 2, 3, 5}[r.Intn(5)]
+		c.CacheCap = []int{0, 1, 2, 3, 5, 8, 9}[r.Intn(7)]
 	}
 	return c
 }
@@ -240,6 +240,9 @@ func GenC12(seed, run uint64, ok CompileOK) *Scenario {
 		case 5:
 			st.Op = "extra"
 			st.N = r.Range(1, 5)
+			if r.Chance(1, 12) {
+				st.N = []int{130, 260, 300, 520}[r.Intn(4)] // size stratum: counters that wrap
+			}
 		case 6:
 			st.Op = "abandon"
 		case 7:
@@ -285,6 +288,15 @@ func GenRegex(r *Rng) string {
 			}
 		}
 		return out
+	}
+	if r.Chance(1, 30) {
+		// size stratum: many capture groups (two-digit group references)
+		n := []int{10, 12, 17, 18, 20}[r.Intn(5)]
+		p := ""
+		for i := 0; i < n; i++ {
+			p += "(" + string("abcd"[i%4]) + ")?"
+		}
+		return p
 	}
 	if r.Chance(1, 25) {
 		// patterns made of quote characters (one kind only, so that an XPath 1.0 literal can hold them)
@@ -366,7 +378,7 @@ func genSubject(r *Rng) string {
 // pattern's group count some of them name a group the pattern does not have;
 // the executor then runs the call but does not judge its result (the statement
 // is silent there) - such a call is legal history for the calls that follow.
-var ReplPool = []string{"$1$2x", "<$1$2x>", "$2y$1", "[$10]", "$1x", "$3z$1", "$2$1", "$1", "$2 é $1", "é$1"}
+var ReplPool = []string{"$1$2x", "<$1$2x>", "$2y$1", "[$10]", "$1x", "$3z$1", "$2$1", "$1", "$2 é $1", "é$1", "[$17]", "$12-$2", "$17$1"}
 
 func genRepl(r *Rng, groups int) string {
 	if r.Chance(1, 3) {
@@ -510,12 +522,32 @@ func GenC16G(seed, run uint64) *Scenario {
 	gCfg(r, &s.Cfg)
 	s.Cfg.Yields |= YLock | YLoad
 	keys := genKeys(r)
-	if len(keys) > 5 {
+	big := r.Chance(1, 8) // size stratum: capacities around 8 / 16, more keys than capacity, more callers
+	if big {
+		s.Cfg.CacheCap = []int{8, 9, 16}[r.Intn(3)]
+		for len(keys) < s.Cfg.CacheCap+4 {
+			k := GenRegex(r)
+			dup := false
+			for _, o := range keys {
+				dup = dup || o == k
+			}
+			if !dup {
+				keys = append(keys, k)
+			}
+		}
+	} else if len(keys) > 5 {
 		keys = keys[:5]
 	}
 	nt := r.Range(2, 4)
+	if big {
+		nt = r.Range(3, 6)
+	}
 	for t := 0; t < nt; t++ {
-		s.Tasks = append(s.Tasks, genCacheOps(r, r.Range(2, 12), keys, s.Cfg.Faults))
+		n := r.Range(2, 12)
+		if big {
+			n = r.Range(10, 30)
+		}
+		s.Tasks = append(s.Tasks, genCacheOps(r, n, keys, s.Cfg.Faults))
 	}
 	s.SchedSeed = r.U64()
 	return s
@@ -550,7 +582,7 @@ func GenC05(seed, run uint64, ok CompileOK) *Scenario {
 		}
 		s.Exprs = genExprs(g, r.Range(1, 4), ok, func() (*E, bool, bool) { return g.Top(), false, false })
 	}
-	s.Cfg.ColdProcess = r.Chance(1, 8)
+	s.Cfg.ColdProcess = r.Chance(1, 5)
 	compileStorm := r.Chance(1, 6) // a run about concurrent Compile / CompileWithNS calls only
 	if compileStorm {
 		s.Cfg.NS = r.Chance(1, 2)
